@@ -8,6 +8,7 @@ from ..drive import call
 from ..shard import Workload
 from ._common import arm_light
 from .c15 import SCALAR_FUNS, rand_basis
+from ..monitors_transform import pristine
 
 P = 'C16'
 tt = None
@@ -71,7 +72,7 @@ def w_kb(ctx, rng, idx):
 def arr_residual(x, y, bl, sols):
     with probe.oracle():
         m = x.shape[1]
-        factors = [np.array([[float(f(x[:, j])) for j in range(m)] for f in fl]) for fl in bl]
+        factors = [np.array([[float(f(x[:, j])) for j in range(m)] for f in fl]) for fl in pristine(bl)]
         A = monitors_transform.product_tensor(factors).reshape(-1, m)
         out = []
         for k, t in enumerate(sols):
